@@ -113,6 +113,12 @@ def build(pid, spec, only_unit=None):
     shutil.rmtree(bdir, ignore_errors=True)
     os.makedirs(bdir)
     units = [u for u in spec["units"] if only_unit in (None, u["name"])]
+    # optional generation step (e.g. tables extracted from the headers under test); {repo} and {bdir} are substituted
+    for cmd in spec.get("pre_cmds", []):
+        cmd = cmd.replace("{repo}", REPO).replace("{bdir}", bdir)
+        r = subprocess.run(cmd, shell=True, cwd=ROOT, stdout=subprocess.PIPE, stderr=subprocess.STDOUT, text=True)
+        if r.returncode != 0:
+            print("PRE STEP FAILED:", cmd); print(r.stdout[-3000:]); sys.exit(2)
     alljobs = []
     per_unit = {}
     for u in units:
